@@ -164,9 +164,14 @@ void eng_hold_exit(cat_status st)
         cat_status s = cat_hold_exit(W.at, st);
         ev_note("cat_hold_exit(%d) -> %d (hold phase %d)", (int)st, (int)s, HOLD_PHASE);
         if (taint_hold) return;
-        if (HOLD_PHASE == 1 || HOLD_PHASE == 2) {
+        if (HOLD_PHASE == 1) {
                 if (s != CAT_STATUS_OK) viol("C14", "release-refused", "cat_hold_exit during a hold returned %d", (int)s);
                 HOLD_PHASE = 2; hold_statuses |= (st == CAT_STATUS_OK) ? 1 : 2; releases_api++; hold_paths |= 1; CNT("releases_by_api");
+        } else if (HOLD_PHASE == 2) {
+                /* a second request before the first one has been consumed: whether the command still counts as held in this window is left open
+                 * by the properties (DESIGN 3.2), so both answers are accepted; an accepted request may replace the status */
+                if (s == CAT_STATUS_OK) { hold_statuses |= (st == CAT_STATUS_OK) ? 1 : 2; CNT("repeated_releases_accepted"); }
+                else if (s != CAT_STATUS_ERROR_NOT_HOLD) viol("C14", "release-refused", "repeated cat_hold_exit returned %d", (int)s);
         }
 }
 void eng_spurious_hold_exit(void)
